@@ -326,7 +326,7 @@ func faultBody(r *explore.Run, rep *report.R, sc string, cases []icase, reads bo
 	// The initializer talks to the API server through a direct, uncached
 	// client (cmd/crossplane/core/init.go): a read never answers 404 for an
 	// object that exists, so that fault is not offered here.
-	inj := &xrh.FaultInjector{Run: r, Reads: reads}
+	inj := (&xrh.FaultInjector{Run: r, Reads: reads}).WithErrClasses(s)
 	if !reads {
 		// Quick tier: of the 17 CRD applies (identical code path, one call
 		// pair each) only the first, a middle one and the conversion-webhook
